@@ -569,9 +569,10 @@ def oracle(run, corr, deep, parts=PARTS):
         reqs = []
         for fn in (H, H + 1, 2 ** 32 - 1):
             reqs.append("tc.rxd %s" % hx(layout_rx(1, 0, -60, 0, [0] * 148, False)[:1] + fn.to_bytes(4, "big") + bytes(151)))
-        for a in vf.run_lines([exe], reqs):
+        for r, a in zip(reqs, vf.run_lines([exe], reqs)):
             if " ind " in a:
-                witness({"kind": "trxcon-rx-fn-range", "prop": "C04", "impl": a[:200]})
+                witness({"kind": "trxcon-rx-fn-range", "prop": "C04", "request": r, "impl": a[:200],
+                         "demanded": "a frame number outside the hyperframe (>= 2715648) is not indicated"})
         robust("trxcon-rx", [r for r in gen_rxd(rng, n)])
 
     if "txd" in parts:
@@ -699,6 +700,8 @@ def replay(run, w):
         b = vf.run_lines([m], [req])[0] if m else a
         return a != b, "%s -> ASan/UBSan build: %s ; MSan build: %s (demanded: identical, no use of uninitialised values)" % (req[:200], a[:160], b[:160])
     f = [x.strip() for x in a.split("|")] if a != "CRASH" else ["CRASH"] * 6
+    if kind == "trxcon-rx-fn-range":
+        return " ind " in a, "%s -> %s (demanded: %s)" % (req[:80], a[:80], w.get("demanded"))
     if kind == "trxcon-rsp-mismatch":
         return a == "CRASH" or f[1] == "accepted", "%s -> %s (demanded: %s)" % (req[:200], a[:200], w.get("demanded"))
     if kind == "trxcon-rsp-accept":
